@@ -175,7 +175,12 @@ def run_extract(ctx):
         c0 = c1 + c2 + extra if mode == 'additive' else rand_cov(rng, k) * float(rng.uniform(0.5, 4))
         var = np.array([c0, c1, c2])
     wit = lambda **kk: dict(variance=var, nc_included=nc, n_rdm=n_rdm, n_pattern=n_pat, **kk)  # noqa: E731
-    ok, out = ctx.guarded('extract_variances', sig, IU.extract_variances, np.array(var, copy=True), nc, n_rdm, n_pat,
+    # sample sizes as a caller may hold them: Python ints, numpy integers (len of an array descriptor, a value read from a
+    # file) or 0-d arrays -- the numbers count, not their type
+    def as_held(n):
+        form = int(rng.integers(3))
+        return n if n is None or form == 0 else (np.int64(n) if form == 1 else np.array(n))
+    ok, out = ctx.guarded('extract_variances', sig, IU.extract_variances, np.array(var, copy=True), nc, as_held(n_rdm), as_held(n_pat),
                           data=wit)
     if not ok:
         return
@@ -185,7 +190,7 @@ def run_extract(ctx):
         ev_d = rng.standard_normal((4, n_model))
         nc_d = np.sort(rng.uniform(0.5, 1, size=(2, 4)), axis=0)
         ok_r, res = ctx.guarded('result_variances', sig, Result, dummy_models(n_model), ev_d, 'cosine', 'bootstrap', nc_d,
-                                variances=np.array(var, copy=True), dof=3, n_rdm=n_rdm, n_pattern=n_pat, data=wit)
+                                variances=np.array(var, copy=True), dof=3, n_rdm=as_held(n_rdm), n_pattern=as_held(n_pat), data=wit)
         if ok_r:
             ctx.case('result_variances', sig)
             for name, got_r, want_r in (('model_var', res.model_var, mv), ('diff_var', res.diff_var, dv),
